@@ -60,7 +60,7 @@ func goTyped(x interface{}, mode int, top bool) interface{} {
 		}
 		return n
 	case []interface{}:
-		if mode&2 != 0 && len(v) > 0 {
+		if mode&2 != 0 {
 			ss := make([]string, 0, len(v))
 			for _, y := range v {
 				if s, ok := y.(string); ok {
@@ -68,7 +68,27 @@ func goTyped(x interface{}, mode int, top bool) interface{} {
 				}
 			}
 			if len(ss) == len(v) {
-				return ss
+				return ss // includes the empty []string{}
+			}
+		}
+		if mode&4 != 0 && len(v) > 0 {
+			ms := make([]core.Map, 0, len(v))
+			for _, y := range v {
+				if m, ok := y.(map[string]interface{}); ok {
+					ms = append(ms, core.Map(goTyped(m, mode&^1, false).(map[string]interface{})))
+				}
+			}
+			if len(ms) == len(v) {
+				return ms
+			}
+			is := make([]int, 0, len(v))
+			for _, y := range v {
+				if f, ok := y.(float64); ok && f == float64(int(f)) {
+					is = append(is, int(f))
+				}
+			}
+			if len(is) == len(v) {
+				return is
 			}
 		}
 		n := make([]interface{}, len(v))
@@ -76,12 +96,68 @@ func goTyped(x interface{}, mode int, top bool) interface{} {
 			n[i] = goTyped(y, mode, false)
 		}
 		return n
+	case float64:
+		if mode&8 != 0 && v == float64(int(v)) {
+			return int(v) // Go callers pass ints
+		}
+		return x
 	default:
 		return x
 	}
 }
 
+// refill makes the existing map object dst hold exactly the entries of src (in place).
+func refill(dst, src map[string]interface{}) {
+	for k := range dst {
+		delete(dst, k)
+	}
+	for k, v := range src {
+		dst[k] = v
+	}
+}
+
 func init() {
+	// kind "matchseq": several matches in a row that REUSE the same Go map objects for pattern, data and bindings,
+	// rewritten in place between the calls (a caller is free to do that; the matcher must not remember anything)
+	register("matchseq", func(c map[string]interface{}) interface{} {
+		steps, _ := c["steps"].([]interface{})
+		pobj, dobj := map[string]interface{}{}, map[string]interface{}{}
+		bobj := core.Bindings{}
+		outs := make([]interface{}, 0)
+		for _, st := range steps {
+			step, _ := st.(map[string]interface{})
+			p, _ := step["p"].(map[string]interface{})
+			d, _ := step["d"].(map[string]interface{})
+			b, _ := step["bs"].(map[string]interface{})
+			refill(pobj, deepCopy(p).(map[string]interface{}))
+			refill(dobj, deepCopy(d).(map[string]interface{}))
+			refill(map[string]interface{}(bobj), deepCopy(b).(map[string]interface{}))
+			var bss []core.Bindings
+			var err error
+			if len(b) == 0 && step["viaMatches"] == true {
+				bss, err = core.Matches(newCtx(), pobj, dobj)
+			} else {
+				bss, err = core.Match(newCtx(), pobj, dobj, bobj)
+			}
+			if err != nil {
+				outs = append(outs, map[string]interface{}{"err": matchErrClass(err)})
+				continue
+			}
+			l := make([]interface{}, 0, len(bss))
+			for _, x := range bss {
+				l = append(l, deepCopy(map[string]interface{}(x)))
+				// what a caller such as EvalRuleCondition does with a result: annotate it
+				x["?annotated"] = true
+			}
+			o := map[string]interface{}{"bss": l}
+			if !reflect.DeepEqual(map[string]interface{}(bobj), deepCopy(b)) {
+				// only the annotation of a returned binding set may show up in the caller's own map if the matcher handed it back
+				o["mutated"] = true
+			}
+			outs = append(outs, o)
+		}
+		return map[string]interface{}{"outs": outs}
+	})
 	register("match", func(c map[string]interface{}) interface{} {
 		p, d := c["p"], c["d"]
 		bs := core.Bindings{}
